@@ -14,7 +14,7 @@ var (
 	signsAll   = []string{"", "-", "+", "--", "-+", "+-", "---", "-+-"}
 	signsSmall = []string{"", "-", "--", "---", "-+-"}
 	signsDev   = []string{"-", "--", "---"}
-	leavesAll  = []int64{0, 1, 2, 3, 7, 100, 2147483647}
+	leavesAll  = []int64{0, 1, 2, 3, 7, 100, 2147483647} // every leaf also spelled with one and two leading zeros (07, 0100)
 )
 
 // exprCase checks one expression in the operand context under core size M.
@@ -227,11 +227,22 @@ func (c *Ctx) RunC07(tier string) {
 				c.otherContexts(root, true)
 				c.equSplits(root, bigM)
 				c.equSplits(root, 8000)
+				// literals spelled with leading zeros are decimal numbers (010 is ten)
+				for _, o := range ops {
+					if o.Op == 0 {
+						for _, lead := range []int{1, 2} {
+							o.Lead = lead
+							c.operandCase(root, false, bigM, "")
+							c.otherContextsM(root, false, 8000)
+						}
+						o.Lead = 0
+					}
+				}
 				last = root.Render(false)
 			})
 		})
 	}
-	rep.Bound = "expressions with <=1 operator: 7 literals x all 8 sign runs on every operand x <=2 redundant parenthesis pairs x spacing on/off, in 5 contexts (operand under M=2^34 and M in {7,8000,8192}, FOR count, ORG, END, ;assert) and with every leaf moved into an EQU at every split of its sign run"
+	rep.Bound = "expressions with <=1 operator: 7 literals x all 8 sign runs on every operand x <=2 redundant parenthesis pairs x spacing on/off x every literal also with 1 and 2 leading zeros, in 5 contexts (operand under M=2^34 and M in {7,8000,8192}, FOR count, ORG, END, ;assert) and with every leaf moved into an EQU at every split of its sign run"
 
 	// F2: two operators.
 	l2, s2, inner2 := []int64{1, 2, 3}, signsSmall, []string{"", "-", "--"}
